@@ -466,7 +466,8 @@ def run(ck):
         "C09: json/logfmt decoding, text/template rendering, regexp matching and strconv.ParseFloat are oracles (Section variables in the theorems; per-case tables computed by running the real stage / library on each single line in the correspondence); CityHash64 is an oracle",
         "C09: float64 is abstract in the theorems; the correspondence instantiates it with Coq's primitive binary64 floats; generated values keep cross-series sums exact so that Go's unspecified map iteration order cannot change a result",
         "C09: Go maps are not shared between entries on input (the ClickHouse getter builds a fresh map per row); the aggregators share one map among the entries of a series, and the stages after them apply the same idempotent cut to every sharer",
-        "C09: the SQL engine side of engines_agree is the reference semantics of model/InternalEngine.v (sem_chain); its tie to the generated SQL is the C07/C08 models",
+        "C09: the SQL engine's side of the cross-engine theorems is C07's reference semantics (model/LogqlSem.v run_stages), proved equal to sem_chain on line filter / label filter / json parameters / drop under the decoder link decoders_linked (false for a missing json path: Example decoders_differ_on_a_missing_path); the tie of that reference to the generated SQL is C07's theorem",
+        "C09: the flattening of nested JSON keys, sanitizeLabel and the json-path walker of planner_parser_json.go are inside the decode oracle (per-line table computed by the real stage)",
     ]
     ck.coq_props()
     if not ck.go_build("inteng"):
@@ -512,7 +513,7 @@ def run(ck):
     ck.coverage["distinct_nontrivial"] += len(distinct)
     ck.coverage["rule"] += ("generated LogQL query strings (log, range-aggregation, unwrap, vector-aggregation with by/without and comparisons; 0-4 extra stages after the "
                             "breakpoint stage) planned by the production planner, upstream of 0-13 entries over 1-3 series in random batchings (whole, singletons, random cuts, "
-                            "empty batches) ending in io.EOF / an error / nothing, limits 0..40, malformed and non-object lines in 1 case of 12; non-trivial = >=2 data entries, "
+                            "empty batches) ending in io.EOF / an error / nothing, limits 0..40 and negative ones, ill-typed label-filter heads, streams collapsing to one label set under by/without or drop, malformed and non-object lines in 1 case of 12; non-trivial = >=2 data entries, "
                             ">=2 batches, >=3 in-process stages; distinct by (query, batches, window, limit). ")
     ck.extra["input_distribution"] = hist
     ck.add_samples([{"query": c["query"], "in": c["in"], "limit": c["limit"], "out": c["out"]} for c in allcases if c.get("mode", "") != "fp" and nontrivial(c)][:3])
